@@ -170,6 +170,29 @@ func c11inputs(env sched.Env) *sched.Report {
 			}
 		}
 	}
+	// the nesting limit must not depend on what was decoded before on the same connection
+	prefixes := []string{"*-1\r\n", "$-1\r\n", "*0\r\n", "-ERR x\r\n", "*1\r\n*1\r\n*0\r\n", "*2\r\n*-1\r\n*-1\r\n", ":1\r\n"}
+	for _, pre := range prefixes {
+		for _, count := range []int{1, 3, 1500} {
+			for _, depth := range []int{100, 127, 128, 129, 130, 1000, 1700} {
+				rep.Execs++
+				nest := strings.Repeat("*1\r\n", depth) + "$1\r\na\r\n"
+				fresh := newDecoder(strings.NewReader(nest), 4096)
+				_, ferr := fresh.Decode()
+				d := newDecoder(strings.NewReader(strings.Repeat(pre, count)+nest), 4096)
+				var derr error
+				for i := 0; i < count && derr == nil; i++ {
+					_, derr = d.Decode() // the prefix messages
+				}
+				if derr == nil {
+					_, derr = d.Decode() // the nested message
+				}
+				if (ferr == nil) != (derr == nil) {
+					fail("nesting-limit-depends-on-earlier-messages", fmt.Sprintf("%d x %q then nesting %d: fresh decoder err=%v, this decoder err=%v", count, pre, depth, ferr, derr), c11case{Kind: "down", In: []byte(strings.Repeat(pre, count) + nest)})
+				}
+			}
+		}
+	}
 	// nesting depth and nested large arrays: isolated child
 	depths := []int{1, 2, 8, 64, 1024, 100000, 1000000, 8000000}
 	for _, d := range depths {
